@@ -1,4 +1,4 @@
-//@unit c08_reduce props=C08 widths=u32
+//@unit c08_reduce props=C08,C05 widths=u32
 //@use prelude/head.rs
 //@use prelude/grammar.rs
 
@@ -366,7 +366,7 @@ fn shift_step_upto(self_: &Parser, state_id: StIdx<$T>, lexeme_prefix: Option<Le
         laidx == laidx0 + 1, // OBL: C08.upto.shift_consumes_one_lexeme
         final(pstack)@ == old(pstack)@.push(state_id), // OBL: C08.upto.shift_pushes_target_state
         final(astack_uw).vals() == old(astack_uw).vals().push(AStackType::Lexeme(shifted_(self_, lexeme_prefix, laidx0 as int))) && final(astack_uw).log() == old(astack_uw).log(), // OBL: C08.upto.shift_pushes_the_lexeme_and_calls_no_action
-        final(spans_uw)@ == old(spans_uw)@.push(shifted_(self_, lexeme_prefix, laidx0 as int).sspan()), // OBL: C08.upto.shift_pushes_the_span_of_the_lexeme_it_pushes
+        final(spans_uw)@ == old(spans_uw)@.push(shifted_(self_, lexeme_prefix, laidx0 as int).sspan()), // OBL: C08.upto.shift_pushes_the_span_of_the_lexeme_it_pushes C05.replay_shift_pushes_the_span_of_the_lexeme_it_pushes
         spans_inv(final(spans_uw)@, d.push(Some((shifted_(self_, lexeme_prefix, laidx0 as int).sspan().st as int, shifted_(self_, lexeme_prefix, laidx0 as int).sspan().en as int)))), // OBL: C08.upto.stack_spans_stay_consistent.shift
 {
     //@probe
